@@ -66,4 +66,6 @@ def run(tier, seed):
                              'counted_as_proved': False, 'kind': 'bounded native (real AntiWindup on stub arrays)'})
         if badm:
             pack.violation(mname, {'bounded': True, 'inputs': badm, 'native_cmd': 'contracts/bounded_limiters_run.py run_moving_limit'})
+    from contracts.C18 import rate_limiter_sides
+    rate_limiter_sides(pack, 'C09')
     return pack.finish()
